@@ -23,7 +23,7 @@ func (x *Exec) checkFrame(fr *frame, o outcome) {
 // frameObligations asserts (emit) the frame condition of st relative to the entry state; where = "" at returns,
 // "loopN-init" / "loopN-step" at loop heads.
 func (x *Exec) frameObligations(st *State, where string) {
-	if x.contract != nil && x.contract.Assumed {
+	if x.contract != nil && (x.contract.Assumed || x.contract.AssumedFrame) {
 		return
 	}
 	x.frameDo(st, where, nil)
@@ -111,6 +111,11 @@ func (x *Exec) frameDo(st *State, where string, assumeOnly map[string]bool) {
 			return
 		}
 		if loc == "fresh(*)" { // objects allocated during the call are outside every frame condition anyway
+			continue
+		}
+		if loc == "bytes(*)" {
+			hn, _ := x.elemHeap(types.Typ[types.Uint8])
+			ds = append(ds, desig{heap: hn, all: true})
 			continue
 		}
 		if i := strings.Index(loc, "("); i > 0 && strings.HasSuffix(loc, ")") {
